@@ -129,6 +129,16 @@ def operator_op(case, rng):
     # import request for an existing / unregistered file
     n = rng.choice(nodes)
     f = rng.choice(case.files)
+    if rng.random() < 0.3:
+        # leftovers of an interrupted transfer / a writer's lock next to the data file, then a recursive scan of the acquisition
+        d = os.path.join(n.root, f.acq.name, os.path.dirname(f.name))
+        os.makedirs(d, exist_ok=True)
+        base = os.path.basename(f.name)
+        for tmpname in (f".{base}.placeholder", f".{base}.lock" if rng.random() < 0.5 else ".stray"):
+            with open(os.path.join(d, tmpname), "wb") as fh:
+                fh.write(b"tmp")
+        db.ArchiveFileImportRequest.create(node=n, path=f.acq.name, recurse=True, register=True)
+        return f"temporary dot-files next to {f.acq.name}/{f.name} on {n.name}; recursive import request for {f.acq.name}"
     db.ArchiveFileImportRequest.create(node=n, path=f"{f.acq.name}/{f.name}", recurse=False, register=True)
     return f"import request {f.acq.name}/{f.name} on {n.name}"
 
